@@ -157,14 +157,15 @@ where
     fn size_hint(&self) -> (usize, Option<usize>) {
         let num_frames = self.frames.len();
         // Must have at least `bin` number of frames left to iterate at all.
-        if self.bin < num_frames {
+        if self.bin <= num_frames {
             // If the hop size is 0, we'll iterate forever.
             if self.hop == 0 {
                 return (core::usize::MAX, None);
             }
-            // Otherwise we can determine exactly how many iterations remain.
-            let remaining_hop_frames = self.frames.len() - self.bin;
-            let remaining_iterations = remaining_hop_frames / self.hop;
+            // Otherwise we can determine exactly how many iterations remain: one for the bin that
+            // fits right now, plus one for every further hop that still leaves a whole bin.
+            let remaining_hop_frames = num_frames - self.bin;
+            let remaining_iterations = remaining_hop_frames / self.hop + 1;
             (remaining_iterations, Some(remaining_iterations))
         } else {
             (0, Some(0))
